@@ -11,6 +11,11 @@ CLAIMS = {
         text="Validator verdict and first-rejected index are compared with an independent ~20-line specification predicate on every sequence of length <=3 (quick) / <=4 (thorough) over 19 well- and ill-formed paths x {dir,file,delete} (exhaustive within the bound), on thousands of generated longer sequences (legal listings up to depth 46 with 0-3 mutations), and under coverage-guided fuzzing (thorough). ComparePath is compared with component-wise order and checked for the strict-total-order axioms on all pairs/triples of a 65-path set. Exhaustive within bounds, sampled beyond; no proof.",
         note="Trusts harness.StreamSpec/CmpComponents as the meaning of the statement. Alphabet and length bounds as stated in evidence.",
         ref="4 C12"),
+    "C20": dict(
+        technique="rapid round-trip and differential testing (VT codec vs google.golang.org/protobuf), fragmentation plans over util.NewProtoStream, hostile/mutated byte strings with an allocation bound; go native fuzz in thorough",
+        text="Generated Packet/Stat values (extreme ints, unknown enum values, nil/empty data, binary xattrs, 40 KB strings, invalid UTF-8) are encoded and decoded with both codecs in both directions and compared field by field; packet sequences incl. empty and >32 KiB packets are written through util.NewProtoStream and read back under drawn fragmentations (1-byte reads to whole-stream), compared only after the stream is drained so buffer aliasing shows; arbitrary, mutated and hostile byte strings must decode or fail without panic within an allocation bound. Thorough adds three coverage-guided fuzz campaigns. Sampled, no proof.",
+        note="Trusts google.golang.org/protobuf as the generic runtime; allocation measured via runtime.MemStats deltas. Values with non-UTF-8 strings are a listed known finding for the cross-codec clause only (VT-only clauses still checked).",
+        ref="4 C20"),
 }
 
 NOT_YET = "check not built yet in this round (planned, see DESIGN.md section 9)"
